@@ -349,6 +349,6 @@ def run(ctx):
     for h in ("add_changed", "add_rejected", "addNode_changed", "change_changed", "change_rejected",
               "create_changed", "create_same", "createNode_changed", "createNode_same", "fetch_same",
               "fetchShare_same", "fetchNode_same"):
-        ctx.floor(h, ctx.pick(100, 1000))
-    ctx.floor("steps_rejected", ctx.pick(3000, 30000))
-    ctx.floor("distinct_nontrivial", ctx.pick(4000, 40000))
+        ctx.floor(h, ctx.pick(1000, 8000))
+    ctx.floor("steps_rejected", ctx.pick(20000, 150000))
+    ctx.floor("distinct_nontrivial", ctx.pick(8000, 60000))
